@@ -368,7 +368,10 @@ ORACLES = {
             _oracle('the same, result cache off', 100, 1500, kind='fuzzq', shape='and_of_ors', nvars=3, nolit=True, caching=False),
             _oracle('rule trees over two variables, result cache on (reference = cache-off reading)', 150, 3000, kind='rdrtree',
                     nvars=2, rules=4, depth=2, n=3),
-            _oracle('conditions on a flattened element, result cache on (reference = cache-off reading)', 150, 3000, kind='flatten_elem')],
+            _oracle('conditions on a flattened element, result cache on (reference = cache-off reading)', 150, 3000, kind='flatten_elem'),
+            _oracle('a rule over two variables whose refinement carries a consequent rule (next_rule nested in the refinement '
+                    'block), literal-free conditions: cache on vs cache off vs reference, three evaluations', 120, 2000,
+                    kind='nextrule_nested')],
     'C16': [_oracle('flatten, parent selected, no condition', 40, 400, kind='flatten', with_cond=False, select_parent=True),
             _oracle('flatten, parent selected, condition', 40, 400, kind='flatten', with_cond=True, select_parent=True),
             _oracle('flatten only, condition', 40, 400, kind='flatten', with_cond=True, select_parent=False, falsy=True),
